@@ -23,6 +23,17 @@ def oracle(ctx, specs, k, rnd, dups):
         witnessed(T, vs)
     except NotTight as e:
         return ctx.fail("C05/" + e.kind, [specs, k], f"{e} ; inferred {show(T)} for {specs} (k={k})")
+    if vals.has_repeated_container(specs):
+        memo = {}
+        vsh = [vals.build_shared(s, memo) for s in specs]
+        ctx.label("aliased-presentation")
+        try:
+            Tsh = tinfer.infer(vsh, k)
+            witnessed(Tsh, vsh)
+        except NotTight as e:
+            return ctx.fail("C05/" + e.kind, [specs, k, "aliased"], f"{e} ; inferred {show(Tsh)} for {specs} with equal sub-containers shared as one object (k={k})")
+        except Exception:
+            pass
     # the merge as the pipeline performs it: on per-value types that went through the store encoding
     vs2 = [vals.build(s) for s in specs]
     try:
